@@ -404,6 +404,26 @@ def _task_unrecognized(task):
                             note="a valid index of a file whose packets decode to no items shows the empty packet")
             elif i >= n and not says_range:
                 t.violation({"kind": "parse-out-of-range-not-reported", "empty_definition": True}, c2, observed=out[-300:])
+    # a packet with a long value is shown whole: a 96-byte binary field prints as one (long) token, whatever the width of the console
+    from mc import docs as _docs
+    from mc.spec import BinEnc, Fixed, Param, PType
+    bdoc = _docs.selector_doc([([PType("BLOB_T", "Binary", BinEnc(Fixed(8 * 96)))], [Param("BLOB", "BLOB_T")], [("p", "BLOB")])])
+    with open(xtce, "wb") as f:
+        f.write(render_xml(bdoc))
+    blobs = [bytes((7 * j + 31 * i + 1) & 0xFF for j in range(96)) for i in range(2)]
+    with open(path, "wb") as f:
+        f.write(b"".join(_docs.packet_for(0, "".join(format(b, "08b") for b in bl), seqcount=i) for i, bl in enumerate(blobs)))
+    for i in range(2):
+        for extra in (["--max-string", "1000"], ["--max-string", "1000", "--max-items", "50"]):
+            code, exc, out = invoke(["parse", path, xtce, "--packet", str(i)] + extra)
+            t.evals += 1
+            t.nontrivial += 1
+            c2 = {"long_value": True, "cmd": "parse", "index": i, "options": extra}
+            if code != 0 or exc:
+                t.violation({"kind": "cli-crash", "cmd": "parse", "exit": str(code), "exc": exc, "long_value": True}, c2, observed=out[-300:])
+            elif repr(blobs[i]) not in out:
+                t.violation({"kind": "parse-shows-wrong-packet", "long_value": True}, c2, expected=repr(blobs[i])[:80] + "...", observed=out[-300:],
+                            note="the selected packet's binary value is not shown in full (with --max-string above its length)")
     for pth in (path, xtce):
         try:
             os.unlink(pth)
